@@ -46,6 +46,7 @@ def shards(tier):
     out.append(("illegal",))
     out.append(("illegal-optimised",))
     out.append(("intlike",))
+    out.append(("usercmds",))
     return out
 
 
@@ -283,6 +284,63 @@ def run_shard(shard):
                           f"{label} was accepted" + (f" and encoded as {fr}" if fr is not None else ""),
                           {"t": "illegal", "idx": i, "label": label})
         sample(res, {"illegal_probes": len(illegal_probes()), "examples": [l for l, _ in illegal_probes()[:5]]})
+    elif k == "usercmds":
+        # an application that declares command classes of its own the documented way ("If a command needs EnableDeviceType(foo)
+        # to be sent first, override devicetype to foo"): they decode back to themselves under their device type, and every
+        # library command with the same opcode still decodes to itself.  Declared in a forked child: registries stay clean.
+        from dalimc.core.preempt import _in_fork
+
+        def child():
+            from dali.gear import general as gg, led, colour
+            from dali.address import GearShort, GearBroadcast
+            probs = []
+
+            class VendorIdentifyChannel(gg._StandardCommand):
+                devicetype = 66
+                _cmdval = 0xE0
+
+            class QueryExtendedVersionNumber(gg.QueryExtendedVersionNumberMixin, gg._StandardCommand):
+                devicetype = 66
+
+            class VendorSetChannel(gg._StandardCommand):
+                devicetype = 67
+                _cmdval = 0xE2
+                _hasparam = False
+                sendtwice = True
+            n = 0
+            for cls in (VendorIdentifyChannel, QueryExtendedVersionNumber, VendorSetChannel):
+                for dest in (GearShort(0), GearShort(63), GearBroadcast()):
+                    c = cls(dest)
+                    d = from_frame(c.frame, devicetype=c.devicetype)
+                    n += 1
+                    if type(d) is not cls or str(d) != str(c) or d.frame != c.frame or not (d.destination == c.destination):
+                        probs.append(f"user-declared {cls.__name__} (device type {cls.devicetype}) {c}: frame {c.frame} decodes under its own device type as {type(d).__module__}.{type(d).__name__} {d}")
+            lib = [gg.QueryExtendedVersionNumber, led.QueryExtendedVersionNumber, colour.QueryExtendedVersionNumber, led.ReferenceSystemPower,
+                   colour.SetTemporaryXCoordinate, led.SelectDimmingCurve, colour.Activate, gg.QueryStatus]
+            for cls in lib:
+                for dest in (GearShort(3), GearBroadcast()):
+                    c = cls(dest)
+                    d = from_frame(c.frame, devicetype=c.devicetype)
+                    n += 1
+                    if type(d) is not cls or str(d) != str(c):
+                        probs.append(f"after user command classes were declared: library {cls.__module__}.{cls.__name__} {c} decodes as {type(d).__module__}.{type(d).__name__} {d}")
+            for v, dt in ((0x07E0, 0), (0x07E2, 0), (0x07E0, 6 if False else 1), (0x07E0, 67), (0x07E2, 66)):
+                d = from_frame(FFX(16, v), devicetype=dt)
+                n += 1
+                exp = R.decode16(v, dt)
+                if R.describe(d) != exp and not (type(d).__name__ == "UnknownGearCommand" and exp[1] == "UnknownGearCommand"):
+                    probs.append(f"after user command classes were declared: frame {v:#06x} under device type {dt} decodes as {type(d).__name__}, reference {exp[1]}")
+            return n, probs
+        from dali.frame import ForwardFrame as FFX
+        out = _in_fork(child)
+        if not out:
+            add_violation(res, "C02:usercmds:raises", "declaring / decoding user command classes failed in the child process", {"t": "usercmds"})
+        else:
+            res["evaluations"] += out[0]
+            for p_ in out[1][:6]:
+                add_violation(res, "C02:usercmds", p_, {"t": "usercmds"})
+            res["distinct"].add(("usercmds", len(out[1]) == 0))
+        sample(res, {"user_declared_command_classes": 3})
     elif k == "intlike":
         # integer parameters given as IntEnum members - the library's own selectors (which its sequences pass to DTR0 / DTR2) and
         # a user IntEnum: same frame, same class, same text as with the plain integer
@@ -387,6 +445,8 @@ def replay(case):
         event_roundtrip(res, case["mod"], case["name"], case["itype"], case["scheme"], case["fields"], case["data"], case["form"], from_frame)
     elif t == "dapc":
         return run_shard(("dapc",))["violations"]
+    elif t == "usercmds":
+        return run_shard(("usercmds",))["violations"]
     elif t == "intlike":
         return [v for v in run_shard(("intlike",))["violations"] if v["case"]["desc"][:2] == case["desc"][:2]]
     elif t == "illegal-optimised":
